@@ -312,31 +312,49 @@ func omittableSetOnSuccess(c *Ctx) {
 			}
 			n++
 			bad := ""
-			for _, r := range an.Returns(fn) {
-				if fn.Recover != nil && r.Block() == fn.Recover {
-					continue
+			isSetTrue := func(in ssa.Instruction) bool {
+				st, ok := in.(*ssa.Store)
+				if !ok {
+					return false
 				}
-				if len(r.Results) != 1 {
-					continue
+				fa, ok := st.Addr.(*ssa.FieldAddr)
+				if !ok || fieldNameOf(fa) != "set" {
+					return false
 				}
-				if v := an.ReturnedValue(r, 0); nonNilValue(v) || nonNilAt(r, v) || nonNilAt(r, r.Results[0]) {
-					continue // a failing return
-				}
-				if !mustPassThrough(fn, r, func(in ssa.Instruction) bool {
-					st, ok := in.(*ssa.Store)
-					if !ok {
-						return false
+				k, isC := st.Val.(*ssa.Const)
+				return isC && k.Value != nil && k.Value.String() == "true"
+			}
+			var check func(fn *ssa.Function, depth int)
+			check = func(fn *ssa.Function, depth int) {
+				for _, r := range an.Returns(fn) {
+					if fn.Recover != nil && r.Block() == fn.Recover {
+						continue
 					}
-					fa, ok := st.Addr.(*ssa.FieldAddr)
-					if !ok || fieldNameOf(fa) != "set" {
-						return false
+					if len(r.Results) != 1 {
+						continue
 					}
-					k, isC := st.Val.(*ssa.Const)
-					return isC && k.Value != nil && k.Value.String() == "true"
-				}) {
+					v := an.ReturnedValue(r, 0)
+					if nonNilValue(v) || nonNilAt(r, v) || nonNilAt(r, r.Results[0]) {
+						continue // a failing return
+					}
+					if mustPassThrough(fn, r, isSetTrue) {
+						continue
+					}
+					// `return o.markSet(err)`: the outcome is decided by a helper method of the same type, which is held to the same rule
+					if call, ok := an.Strip(v).(*ssa.Call); ok && depth < 2 {
+						callee := call.Call.StaticCallee()
+						if callee != nil && len(callee.Blocks) == 0 && callee.Origin() != nil {
+							callee = callee.Origin()
+						}
+						if callee != nil && len(callee.Blocks) > 0 && callee.Signature.Recv() != nil && strings.Contains(callee.Signature.Recv().Type().String(), "graphql.Omittable") {
+							check(callee, depth+1)
+							continue
+						}
+					}
 					bad = "the return at " + c.ipos(r) + " reports success without having marked the value as set: an explicitly supplied value looks omitted afterwards (IsSet() false, Value() zero)"
 				}
 			}
+			check(fn, 0)
 			c.R.Check(bad == "", "Omittable."+m.Name(), c.pos(fn.Pos()), "set = true before every successful return", bad)
 		}
 	}
